@@ -1,0 +1,1 @@
+//! Verification hooks: `address_lookup` (thin pass-through wrappers; feature `verif-hooks` only).
